@@ -1579,6 +1579,31 @@ impl Builder {
             &self.repair_callback,
         )
     }
+
+    /// Verification hook: page-size setter for simulation builds (mirrors `set_page_size`).
+    #[cfg(redb_verif)]
+    pub fn verif_set_page_size(&mut self, size: usize) -> &mut Self {
+        assert!(size.is_power_of_two());
+        self.page_size = core::cmp::max(size, 512);
+        self
+    }
+
+    /// Verification hook: region-size setter for simulation builds (mirrors `set_region_size`).
+    #[cfg(redb_verif)]
+    pub fn verif_set_region_size(&mut self, size: u64) -> &mut Self {
+        assert!(size.is_power_of_two());
+        self.region_size = Some(size);
+        self
+    }
+
+    /// Verification hook: open a read-only database on a caller-supplied backend.
+    #[cfg(all(redb_verif, not(redb_no_std)))]
+    pub fn verif_open_read_only_with_backend(
+        &self,
+        backend: impl StorageBackend,
+    ) -> Result<ReadOnlyDatabase, DatabaseError> {
+        ReadOnlyDatabase::new(Box::new(backend), self.page_size, None, self.cache_size)
+    }
 }
 
 impl core::fmt::Debug for Database {
